@@ -11,6 +11,7 @@ package main
 import (
 	"encoding/json"
 	"fmt"
+	"math"
 	"os"
 	"path/filepath"
 	"sort"
@@ -143,7 +144,24 @@ func verdict(c caseT, steps int) (kind string, w map[string]any, retires int, re
 			}
 			if int(prev) < len(c.Prog) {
 				w["instruction_retired"] = c.Prog[prev]
-				return "differs:" + diff + ":" + strings.Fields(c.Prog[prev])[0], w, i, regChanged
+				f := strings.Fields(c.Prog[prev])
+				if diff == "registers" && isFloatOp(f[0]) && onlyNaNPayloadsDiffer(a.Regs, b.Regs, c.Rsize) {
+					// both back ends produced a NaN, with different payloads: the statement is about values,
+					// NaN payloads are compared as a class; later instructions would see different bits
+					return "float-nan-payload", w, i, regChanged
+				}
+				if diff == "pc" && f[0] == "jgt0f" && i > 0 {
+					// which operand value makes the two back ends take different branches
+					var r int
+					fmt.Sscanf(f[1], "r%d", &r)
+					if r < len(g.Retires[i-1].Regs) {
+						v := math.Float32frombits(uint32(g.Retires[i-1].Regs[r]))
+						if v == 0 || v != v {
+							return "differs:pc:jgt0f:operand-is-zero-or-nan", w, i, regChanged
+						}
+					}
+				}
+				return "differs:" + diff + ":" + f[0], w, i, regChanged
 			}
 			return "differs:" + diff + ":beyond-program", w, i, regChanged
 		}
@@ -161,6 +179,17 @@ func verdict(c caseT, steps int) (kind string, w map[string]any, retires int, re
 		op := "beyond-program"
 		if int(prev) < len(c.Prog) {
 			op = strings.Fields(c.Prog[prev])[0]
+		}
+		if op == "jgt0f" && int(prev) < len(c.Prog) {
+			// a jump to itself never shows as a retire: the same disagreement as differs:pc:jgt0f
+			f := strings.Fields(c.Prog[prev])
+			var r int
+			fmt.Sscanf(f[1], "r%d", &r)
+			if r < len(h.Final.Regs) {
+				if v := math.Float32frombits(uint32(h.Final.Regs[r])); (v == 0 || v != v) && f[2] == strconv.Itoa(int(prev)) {
+					return "differs:pc:jgt0f:operand-is-zero-or-nan", w, len(h.Retires), regChanged
+				}
+			}
 		}
 		return "hdl-stalls:" + op, w, len(h.Retires), regChanged
 	}
@@ -192,6 +221,36 @@ func verdict(c caseT, steps int) (kind string, w map[string]any, retires int, re
 		}
 	}
 	return "", nil, len(g.Retires), regChanged
+}
+
+func isFloatOp(op string) bool {
+	switch op {
+	case "addf", "multf", "divf", "addf16", "multf16", "divf16":
+		return true
+	}
+	return false
+}
+
+func isNaNBits(v uint64, rsize uint8) bool {
+	switch rsize {
+	case 32:
+		return v&0x7f800000 == 0x7f800000 && v&0x007fffff != 0
+	case 16:
+		return v&0x7c00 == 0x7c00 && v&0x03ff != 0
+	}
+	return false
+}
+
+func onlyNaNPayloadsDiffer(a, b []uint64, rsize uint8) bool {
+	if len(a) != len(b) {
+		return false
+	}
+	for i := range a {
+		if a[i] != b[i] && !(isNaNBits(a[i], rsize) && isNaNBits(b[i], rsize)) {
+			return false
+		}
+	}
+	return true
 }
 
 func writtenOut(prog []string, k int) bool {
@@ -284,6 +343,20 @@ func claimedPool(rsize uint8) []string {
 	}
 	if rsize >= 8 {
 		p = append(p, "rsets5")
+	}
+	// dynamically created arithmetic families whose word size is this register size
+	if rsize <= 32 {
+		for _, fam := range []string{"fps%df%d", "lqs%dt1"} {
+			for _, o := range []string{"add", "mult", "div"} {
+				name := o + fmt.Sprintf(fam, rsize, rsize/2)
+				if strings.Contains(fam, "lqs") {
+					name = o + fmt.Sprintf(fam, rsize)
+				}
+				if gen.OpByName(name) != nil {
+					p = append(p, name)
+				}
+			}
+		}
 	}
 	sort.Strings(p)
 	return p
@@ -405,6 +478,14 @@ func directedCases(rsize uint8) []caseT {
 		if len(sig) != 2 || sig[0].K != gen.KReg || sig[1].K != gen.KReg {
 			continue
 		}
+		bnd := bnd
+		if isFloatOp(op) {
+			// operand bit patterns that are interesting as floats: ±1, 2.5, 0.1, -3.75, large, tiny, ±0, ±inf, subnormal
+			bnd = []uint64{0x3f800000, 0xbf800000, 0x40200000, 0x3dcccccd, 0xc0700000, 0x7f7fffff, 0x00800000, 0, 0x80000000, 0x7f800000, 0xff800000, 0x00000001, 0x4b800000, 0x33800000}
+			if rsize == 16 {
+				bnd = []uint64{0x3c00, 0xbc00, 0x4100, 0x2e66, 0xc380, 0x7bff, 0x0400, 0, 0x8000, 0x7c00, 0xfc00, 0x0001, 0x6400, 0x1400}
+			}
+		}
 		for _, R := range []uint8{1, 2} {
 			for ai, a := range bnd {
 				b := bnd[(ai*3+1)%len(bnd)]
@@ -514,6 +595,9 @@ func main() {
 	defer clean()
 	hx.SilenceStdout(filepath.Join(scratch, "lib.log"))
 	gen.OpByName("rsets5")
+	if err := gen.EnableLinearQuantizer(scratch); err != nil {
+		fmt.Fprintln(os.Stderr, "lq ranges:", err)
+	}
 	steps := 300
 
 	excl := map[string]string{}
@@ -539,7 +623,7 @@ func main() {
 				c2.Prog = append(append([]string{}, c.Prog[:i]...), c.Prog[i+1:]...)
 				for j, l := range c2.Prog {
 					f := strings.Fields(l)
-					if f[0] == "j" || f[0] == "jz" {
+					if f[0] == "j" || f[0] == "jz" || f[0] == "jgt0f" {
 						t, _ := strconv.Atoi(f[len(f)-1])
 						if t > i {
 							t--
@@ -587,7 +671,7 @@ func main() {
 		case "not-buildable":
 			run.Inconclusive(kind)
 			run.Tally("not_buildable_reasons", fmt.Sprint(w["err"]))
-		case "sim-undefined", "hdl-undefined-register", "vsim-unsupported":
+		case "sim-undefined", "hdl-undefined-register", "vsim-unsupported", "float-nan-payload":
 			run.Inconclusive(kind)
 		default:
 			report(c, kind, w)
